@@ -19,5 +19,7 @@ def run(ctx):
     n = 150 if ctx.tier == "quick" else 2500
     gen = progflow.generate(ctx, "all", n, extra=("-corrupt",))
     failures += staticflow.judge(ctx, gen, "gen")
+    # a type error at every position of long parameter / result / element / value / condition / case lists and at the bottom of deep expressions
+    failures += staticflow.judge(ctx, progflow.scale_cases(ctx, "C06"), "scale")
     staticflow.report(ctx, failures)
     return ctx.finish(rule=RULE, assumptions=ASSUME)
